@@ -267,6 +267,7 @@ structure Out.WF (o : Out) : Prop where
   timing : o.timing = .afterBody
   bytes : ∀ c ∈ o.chunks, c.2 = true
   cl : ∀ n, o.cl = some n → n = sum (o.chunks.map (·.1))
+  noEscape : o.auxEscapes = false
 
 def Result.WF : Result → Prop
   | .crash _ => False
@@ -277,13 +278,10 @@ theorem sum_map_fst_map (l : List Nat) : sum ((l.map (fun n => (n, true))).map (
   | nil => rfl
   | cons a t ih => simp [sum] at ih ⊢; exact ih
 
-theorem sum_map_fst_map' (l : List Nat) : sum ((l.map (fun n => (n, true))).map (·.1)) = sum l :=
-  sum_map_fst_map l
-
 theorem errorOut_wf (F : Facts13) (req : Req) (preset : Option Nat) (fc : FaultClass)
     (h : F.closeTiming = .afterBody) (he : F.errorEventBeforeLength = true) :
     (errorOut F req preset fc).WF := by
-  refine ⟨⟨h, ?_, ?_⟩, rfl⟩
+  refine ⟨⟨h, ?_, ?_, rfl⟩, rfl⟩
   · intro c hc; simp at hc; obtain ⟨a, _, rfl⟩ := hc; rfl
   · intro n hn
     simp only [errLen, he, if_true, Option.some.injEq] at hn
@@ -294,7 +292,7 @@ theorem successOut_wf (F : Facts13) (cfg : Cfg) (r : Resp)
     (h : F.closeTiming = .afterBody) (hj : F.joinKind = .bytes) : (successOut F cfg r).WF := by
   unfold successOut
   split
-  · refine ⟨⟨h, ?_, ?_⟩, rfl⟩
+  · refine ⟨⟨h, ?_, ?_, rfl⟩, rfl⟩
     · intro c hc; simp at hc; obtain ⟨a, _, rfl⟩ := hc; rfl
     · intro n hn
       simp only at hn
@@ -302,7 +300,7 @@ theorem successOut_wf (F : Facts13) (cfg : Cfg) (r : Resp)
       · cases hn; exact (sum_map_fst_map _).symm
       · cases hn
   · rw [hj]
-    refine ⟨⟨h, ?_, ?_⟩, rfl⟩
+    refine ⟨⟨h, ?_, ?_, rfl⟩, rfl⟩
     · intro c hc; simp at hc; subst hc; rfl
     · intro n hn; simp at hn; subst hn; simp [sum]
 
@@ -314,31 +312,42 @@ theorem withReturnListener_wf (F : Facts13) (cfg : Cfg) (req : Req) (r : Resp)
   · exact successOut_wf _ _ _ h hj
   · simp only [hr, if_true]; exact successOut_wf _ _ _ h hj
 
+/-- a guard that catches everything keeps the auxiliary run from disturbing the answer -/
+theorem withAux_wf (req : Req) (runs : Bool) (r : Result) (h : r.WF) : (withAux req runs true r).WF := by
+  cases r with
+  | crash c => exact h.elim
+  | out o =>
+    obtain ⟨⟨h1, h2, h3, _⟩, h5⟩ := h
+    exact ⟨⟨h1, h2, h3, by simp⟩, h5⟩
+
 theorem afterUser_wf (F : Facts13) (cfg : Cfg) (req : Req) (r : Resp) (hF : F.Good) :
     (afterUser F cfg req r).WF := by
-  obtain ⟨h1, _, h3, _, h5, _, h7, h8⟩ := id hF
+  obtain ⟨h1, _, h3, _, h5, _, h7, h8, h9, h10⟩ := id hF
   have hc : (if r.serializeFails then
-        errorOut F req (if F.lateErrorKeepsOkStatus then some (r.preset.getD F.okStatus) else r.preset) .server
-      else withReturnListener F cfg req r).WF := by
+        withAux req req.auxOnErrors F.auxGuardError
+          (errorOut F req (if F.lateErrorKeepsOkStatus then some (r.preset.getD F.okStatus) else r.preset) .server)
+      else withAux req true F.auxGuardOk (withReturnListener F cfg req r)).WF := by
+    rw [h9, h10]
     split
-    · exact errorOut_wf _ _ _ _ h1 h8
-    · exact withReturnListener_wf _ _ _ _ h1 h3 h7
+    · exact withAux_wf _ _ _ (errorOut_wf _ _ _ _ h1 h8)
+    · exact withAux_wf _ _ _ (withReturnListener_wf _ _ _ _ h1 h3 h7)
   unfold afterUser
   simp only [h5, if_true]
   split
   · exact hc
   · exact hc
   · exact hc
-  · exact errorOut_wf _ _ _ _ h1 h8
+  · rw [h10]; exact withAux_wf _ _ _ (errorOut_wf _ _ _ _ h1 h8)
 
 theorem intendedResult_wf (F : Facts13) (cfg : Cfg) (req : Req) (hF : F.Good) :
     (intendedResult F cfg req).2.WF := by
+  obtain ⟨h1, _, _, _, _, _, _, h8, _, h10⟩ := id hF
   unfold intendedResult
   split
-  · exact errorOut_wf _ _ _ _ hF.1 hF.2.2.2.2.2.2.2
-  · exact errorOut_wf _ _ _ _ hF.1 hF.2.2.2.2.2.2.2
-  · exact errorOut_wf _ _ _ _ hF.1 hF.2.2.2.2.2.2.2
-  · exact errorOut_wf _ _ _ _ hF.1 hF.2.2.2.2.2.2.2
+  · exact errorOut_wf _ _ _ _ h1 h8
+  · exact errorOut_wf _ _ _ _ h1 h8
+  · exact errorOut_wf _ _ _ _ h1 h8
+  · simp only; rw [h10]; exact withAux_wf _ _ _ (errorOut_wf _ _ _ _ h1 h8)
   · exact afterUser_wf _ _ _ _ hF
 
 /-- with the good facts every request is answered: no exception escapes, and the answer is
@@ -346,7 +355,7 @@ theorem intendedResult_wf (F : Facts13) (cfg : Cfg) (req : Req) (hF : F.Good) :
 theorem process_wf (F : Facts13) (cfg : Cfg) (req : Req) (stream : List Nat) (hF : F.Good) :
     (process F cfg req stream).2.WF := by
   have h1 := hF.1
-  obtain ⟨_, _, _, h4, _, h6, _, h8⟩ := id hF
+  obtain ⟨_, _, _, h4, _, h6, _, h8, _, _⟩ := id hF
   unfold process
   split
   · exact errorOut_wf _ _ _ _ h1 h8
@@ -400,7 +409,7 @@ theorem process_pre (F : Facts13) (cfg : Cfg) (req : Req) (stream : List Nat) :
 /-! ### handing the body over -/
 
 /-- an event `process` can emit in front of the response -/
-def isPre (e : Ev) : Bool := isRead e || isUser e
+def isPre (e : Ev) : Bool := isRead e || isUser e || isHdr e
 
 theorem mem_chunkEvs {cs : List (Nat × Bool)} {e : Ev} (h : e ∈ chunkEvs cs) :
     ∃ n b, e = .chunk n b ∧ (n, b) ∈ cs := by
@@ -432,7 +441,7 @@ theorem bodyBytes_pre (pre : List Ev) (hpre : ∀ e ∈ pre, isPre e = true) : b
   | cons e t ih =>
     have he := hpre e (by simp)
     have := ih (fun x hx => hpre x (by simp [hx]))
-    cases e <;> simp_all [bodyBytes, isPre, isRead, isUser]
+    cases e <;> simp_all [bodyBytes, isPre, isRead, isUser, isHdr]
 
 theorem bodyBytes_finalEvs (c : Closes) : bodyBytes (finalEvs c) = 0 := by
   cases c <;> rfl
@@ -459,10 +468,20 @@ theorem taken_sub (abort : Option Nat) (cs : List (Nat × Bool)) : ∀ c ∈ tak
 theorem taken_length_le (k : Nat) (cs : List (Nat × Bool)) : (taken (some k) cs).length ≤ k := by
   simp [taken]; omega
 
-theorem deliver_after (o : Out) (abort : Option Nat) (h : o.timing = .afterBody) :
+theorem mem_auxEvs {o : Out} {e : Ev} (h : e ∈ auxEvs o) : e = .aux := by
+  unfold auxEvs at h; split at h <;> simp at h; exact h
+
+theorem countP_auxEvs (p : Ev → Bool) (hp : p .aux = false) (o : Out) : List.countP p (auxEvs o) = 0 := by
+  rw [List.countP_eq_zero]; intro e he; rw [mem_auxEvs he]; simp [hp]
+
+theorem bodyBytes_auxEvs (o : Out) : bodyBytes (auxEvs o) = 0 := by
+  unfold auxEvs; split <;> rfl
+
+theorem deliver_after (o : Out) (abort : Option Nat) (h : o.timing = .afterBody) (he : o.auxEscapes = false) :
     deliver o abort =
-      .startResponse o.status o.fault o.cl :: .returned :: (chunkEvs (taken abort o.chunks) ++ finalEvs o.closes) := by
-  simp [deliver, h]
+      .startResponse o.status o.fault o.cl ::
+        (auxEvs o ++ .returned :: (chunkEvs (taken abort o.chunks) ++ finalEvs o.closes)) := by
+  simp [deliver, h, he]
 
 /-- the shape every answered request has when the facts are good -/
 structure Answered (tr : List Ev) (abort : Option Nat) (pre : List Ev) (o : Out) : Prop where
@@ -470,75 +489,96 @@ structure Answered (tr : List Ev) (abort : Option Nat) (pre : List Ev) (o : Out)
   pre : ∀ e ∈ pre, isPre e = true
   timing : o.timing = .afterBody
   cl : ∀ n, o.cl = some n → n = sum (o.chunks.map (·.1))
+  noEscape : o.auxEscapes = false
 
 theorem Answered.start_once {tr abort pre o} (h : Answered tr abort pre o) :
     List.countP isStart tr = 1 := by
-  rw [h.eq, deliver_after _ _ h.timing, List.countP_append,
-    countP_pre isStart (by intro e; cases e <;> simp [isPre, isRead, isUser, isStart]) pre h.pre]
+  rw [h.eq, deliver_after _ _ h.timing h.noEscape, List.countP_append,
+    countP_pre isStart (by intro e; cases e <;> simp [isPre, isRead, isUser, isHdr, isStart]) pre h.pre]
   simp only [List.countP_cons, List.countP_append, isStart,
-    countP_chunkEvs isStart (by intros; rfl)]
+    countP_chunkEvs isStart (by intros; rfl), countP_auxEvs isStart rfl]
   cases o.closes <;> simp [finalEvs, isStart]
 
 theorem Answered.start_before_chunks {tr abort pre o} (h : Answered tr abort pre o) :
     noneBefore isChunk isStart tr = true := by
-  rw [h.eq, deliver_after _ _ h.timing, noneBefore_append_pre]
+  rw [h.eq, deliver_after _ _ h.timing h.noEscape, noneBefore_append_pre]
   · simp [noneBefore, isStart]
   · intro e he
     have := h.pre e he
-    cases e <;> simp_all [isPre, isRead, isUser, isChunk, isStart]
+    cases e <;> simp_all [isPre, isRead, isUser, isHdr, isChunk, isStart]
+
+theorem mem_finalEvs {c : Closes} {e : Ev} (h : e ∈ finalEvs c) : e = .ctxClosed ∨ e = .wsgiClose := by
+  cases c <;> simp [finalEvs] at h
+  · exact h
+  · exact Or.inl h
 
 theorem Answered.no_crash {tr abort pre o} (h : Answered tr abort pre o) :
     ∀ e ∈ tr, isCrash e = false := by
   intro e he
-  rw [h.eq, deliver_after _ _ h.timing] at he
+  rw [h.eq, deliver_after _ _ h.timing h.noEscape] at he
   simp only [List.mem_append, List.mem_cons] at he
-  rcases he with he | rfl | rfl | he | he
+  rcases he with he | rfl | he | rfl | he | he
   · have := h.pre e he
-    cases e <;> simp_all [isPre, isRead, isUser, isCrash]
+    cases e <;> simp_all [isPre, isRead, isUser, isHdr, isCrash]
   · rfl
+  · rw [mem_auxEvs he]; rfl
   · rfl
   · obtain ⟨n, b, rfl, _⟩ := mem_chunkEvs he; rfl
-  · cases hc : o.closes <;> simp [hc, finalEvs] at he <;> (try rcases he with rfl | rfl) <;> (try subst he) <;> rfl
+  · rcases mem_finalEvs he with rfl | rfl <;> rfl
 
 theorem Answered.content_length {tr abort pre o} (h : Answered tr abort pre o) (s : Nat)
     (f : Option FaultClass) (n : Nat) (hm : Ev.startResponse s f (some n) ∈ tr) :
     bodyBytes tr ≤ n ∧ (abort = none → bodyBytes tr = n) := by
   have hcl : o.cl = some n := by
-    rw [h.eq, deliver_after _ _ h.timing] at hm
+    rw [h.eq, deliver_after _ _ h.timing h.noEscape] at hm
     simp only [List.mem_append, List.mem_cons] at hm
-    rcases hm with hm | hm | hm | hm | hm
-    · have := h.pre _ hm; simp [isPre, isRead, isUser] at this
+    rcases hm with hm | hm | hm | hm | hm | hm
+    · have := h.pre _ hm; simp [isPre, isRead, isUser, isHdr] at this
     · injection hm with _ _ h3; exact h3.symm
+    · cases mem_auxEvs hm
     · cases hm
     · obtain ⟨_, _, h1, _⟩ := mem_chunkEvs hm; cases h1
-    · cases hc : o.closes <;> simp [hc, finalEvs] at hm
+    · rcases mem_finalEvs hm with h1 | h1 <;> cases h1
   have hn := h.cl n hcl
   have hb : bodyBytes tr = sum ((taken abort o.chunks).map (·.1)) := by
-    rw [h.eq, deliver_after _ _ h.timing, bodyBytes_append, bodyBytes_pre _ h.pre]
-    simp only [bodyBytes, bodyBytes_append, bodyBytes_chunkEvs, bodyBytes_finalEvs]
+    rw [h.eq, deliver_after _ _ h.timing h.noEscape, bodyBytes_append, bodyBytes_pre _ h.pre]
+    simp only [bodyBytes, bodyBytes_append, bodyBytes_chunkEvs, bodyBytes_finalEvs, bodyBytes_auxEvs]
     omega
   constructor
   · rw [hb, hn]; exact taken_sizes_le _ _
   · intro ha; rw [hb, hn, ha]; rfl
 
+theorem Answered.start_of {tr abort pre o} (h : Answered tr abort pre o) (s : Nat)
+    (f : Option FaultClass) (c : Option Nat) (hm : Ev.startResponse s f c ∈ tr) : s = o.status := by
+  rw [h.eq, deliver_after _ _ h.timing h.noEscape] at hm
+  simp only [List.mem_append, List.mem_cons] at hm
+  rcases hm with hm | hm | hm | hm | hm | hm
+  · have := h.pre _ hm; simp [isPre, isRead, isUser, isHdr] at this
+  · injection hm with h1 _ _
+  · cases mem_auxEvs hm
+  · cases hm
+  · obtain ⟨_, _, h1, _⟩ := mem_chunkEvs hm; cases h1
+  · rcases mem_finalEvs hm with h1 | h1 <;> cases h1
+
 theorem Answered.chunks_of {tr abort pre o} (h : Answered tr abort pre o) (n : Nat) (b : Bool)
     (hm : Ev.chunk n b ∈ tr) : (n, b) ∈ o.chunks := by
-  rw [h.eq, deliver_after _ _ h.timing] at hm
+  rw [h.eq, deliver_after _ _ h.timing h.noEscape] at hm
   simp only [List.mem_append, List.mem_cons] at hm
-  rcases hm with hm | hm | hm | hm | hm
-  · have := h.pre _ hm; simp [isPre, isRead, isUser] at this
+  rcases hm with hm | hm | hm | hm | hm | hm
+  · have := h.pre _ hm; simp [isPre, isRead, isUser, isHdr] at this
   · cases hm
+  · cases mem_auxEvs hm
   · cases hm
   · obtain ⟨n', b', h1, h2⟩ := mem_chunkEvs hm
     cases h1
     exact taken_sub _ _ _ h2
-  · cases hc : o.closes <;> simp [hc, finalEvs] at hm
+  · rcases mem_finalEvs hm with h1 | h1 <;> cases h1
 
 theorem Answered.abort_respected {tr pre o} (k : Nat) (h : Answered tr (some k) pre o) :
     List.countP isChunk tr ≤ k := by
-  rw [h.eq, deliver_after _ _ h.timing, List.countP_append,
-    countP_pre isChunk (by intro e; cases e <;> simp [isPre, isRead, isUser, isChunk]) pre h.pre]
-  simp only [List.countP_cons, List.countP_append, isChunk]
+  rw [h.eq, deliver_after _ _ h.timing h.noEscape, List.countP_append,
+    countP_pre isChunk (by intro e; cases e <;> simp [isPre, isRead, isUser, isHdr, isChunk]) pre h.pre]
+  simp only [List.countP_cons, List.countP_append, isChunk, countP_auxEvs isChunk rfl]
   have h1 : List.countP isChunk (chunkEvs (taken (some k) o.chunks)) ≤ k :=
     Nat.le_trans (List.countP_le_length) (by simpa [chunkEvs] using taken_length_le k o.chunks)
   have h2 : List.countP isChunk (finalEvs o.closes) = 0 := by cases o.closes <;> rfl
@@ -548,49 +588,127 @@ theorem Answered.abort_respected {tr pre o} (k : Nat) (h : Answered tr (some k) 
 theorem Answered.closed_once {tr abort pre o} (h : Answered tr abort pre o) (hc : o.closes ≠ .never) :
     List.countP isClosed tr = 1 ∧ noneAfter isChunk isClosed tr = true ∧
     noneBefore isClosed isReturned tr = true := by
-  rw [h.eq, deliver_after _ _ h.timing]
+  have haux : ∀ e ∈ auxEvs o, isClosed e = false ∧ isReturned e = false := by
+    intro e he; rw [mem_auxEvs he]; exact ⟨rfl, rfl⟩
+  rw [h.eq, deliver_after _ _ h.timing h.noEscape]
   refine ⟨?_, ?_, ?_⟩
   · rw [List.countP_append,
-      countP_pre isClosed (by intro e; cases e <;> simp [isPre, isRead, isUser, isClosed]) pre h.pre]
+      countP_pre isClosed (by intro e; cases e <;> simp [isPre, isRead, isUser, isHdr, isClosed]) pre h.pre]
     simp only [List.countP_cons, List.countP_append, isClosed,
-      countP_chunkEvs isClosed (by intros; rfl)]
+      countP_chunkEvs isClosed (by intros; rfl), countP_auxEvs isClosed rfl]
     cases hcl : o.closes with
     | rpc => simp [finalEvs, isClosed, List.countP_cons]
     | wsdl => simp [finalEvs, isClosed, List.countP_cons]
     | never => exact absurd hcl hc
   · rw [noneAfter_append_pre]
     · simp only [noneAfter, isClosed, Bool.false_eq_true, if_false]
+      rw [noneAfter_append_pre _ _ _ _ (fun e he => (haux e he).1)]
+      simp only [noneAfter, isClosed, Bool.false_eq_true, if_false]
       rw [noneAfter_append_pre]
       · cases hcl : o.closes <;> simp_all [finalEvs, noneAfter, isClosed, isChunk]
       · intro e he; obtain ⟨n, b, rfl, _⟩ := mem_chunkEvs he; rfl
     · intro e he
       have := h.pre e he
-      cases e <;> simp_all [isPre, isRead, isUser, isClosed]
+      cases e <;> simp_all [isPre, isRead, isUser, isHdr, isClosed]
   · rw [noneBefore_append_pre]
-    · simp [noneBefore, isReturned, isClosed]
+    · simp only [noneBefore, isReturned, isClosed, Bool.false_eq_true, if_false, Bool.not_false, Bool.true_and]
+      rw [noneBefore_append_pre _ _ _ _ (fun e he => haux e he)]
+      simp [noneBefore, isReturned]
     · intro e he
       have := h.pre e he
-      cases e <;> simp_all [isPre, isRead, isUser, isClosed, isReturned]
+      cases e <;> simp_all [isPre, isRead, isUser, isHdr, isClosed, isReturned]
 
 theorem Answered.wsgi_close_once {tr abort pre o} (h : Answered tr abort pre o) (hc : o.closes = .rpc) :
     List.countP isWsgiClose tr = 1 ∧ noneAfter isChunk isWsgiClose tr = true := by
-  rw [h.eq, deliver_after _ _ h.timing]
+  rw [h.eq, deliver_after _ _ h.timing h.noEscape]
   refine ⟨?_, ?_⟩
   · rw [List.countP_append,
-      countP_pre isWsgiClose (by intro e; cases e <;> simp [isPre, isRead, isUser, isWsgiClose]) pre h.pre]
+      countP_pre isWsgiClose (by intro e; cases e <;> simp [isPre, isRead, isUser, isHdr, isWsgiClose]) pre h.pre]
     simp [List.countP_cons, List.countP_append, isWsgiClose,
-      countP_chunkEvs isWsgiClose (by intros; rfl), hc, finalEvs]
+      countP_chunkEvs isWsgiClose (by intros; rfl), countP_auxEvs isWsgiClose rfl, hc, finalEvs]
   · rw [noneAfter_append_pre]
     · simp only [noneAfter, isWsgiClose, Bool.false_eq_true, if_false]
+      rw [noneAfter_append_pre _ _ _ _ (fun e he => by rw [mem_auxEvs he]; rfl)]
+      simp only [noneAfter, isWsgiClose, Bool.false_eq_true, if_false]
       rw [noneAfter_append_pre]
       · simp [hc, finalEvs, noneAfter, isWsgiClose]
       · intro e he; obtain ⟨n, b, rfl, _⟩ := mem_chunkEvs he; rfl
     · intro e he
       have := h.pre e he
-      cases e <;> simp_all [isPre, isRead, isUser, isWsgiClose]
+      cases e <;> simp_all [isPre, isRead, isUser, isHdr, isWsgiClose]
+
+/-- the auxiliary method runs after `start_response` and before the hand-over, at most once -/
+theorem Answered.aux_between {tr abort pre o} (h : Answered tr abort pre o) :
+    List.countP isAux tr ≤ 1 ∧ noneBefore isAux isStart tr = true ∧ noneAfter isAux isReturned tr = true := by
+  rw [h.eq, deliver_after _ _ h.timing h.noEscape]
+  have hpre : ∀ e ∈ pre, isAux e = false ∧ isStart e = false ∧ isReturned e = false := by
+    intro e he
+    have := h.pre e he
+    cases e <;> simp_all [isPre, isRead, isUser, isHdr, isAux, isStart, isReturned]
+  refine ⟨?_, ?_, ?_⟩
+  · rw [List.countP_append, List.countP_eq_zero.2 (fun e he => by simp [(hpre e he).1])]
+    simp only [List.countP_cons, List.countP_append, isAux, countP_chunkEvs isAux (by intros; rfl)]
+    have h2 : List.countP isAux (finalEvs o.closes) = 0 := by cases o.closes <;> rfl
+    have h3 : List.countP isAux (auxEvs o) ≤ 1 := by unfold auxEvs; split <;> simp [isAux]
+    simp only [h2]; simp; omega
+  · rw [noneBefore_append_pre _ _ _ _ (fun e he => ⟨(hpre e he).1, (hpre e he).2.1⟩)]
+    simp [noneBefore, isStart]
+  · rw [noneAfter_append_pre _ _ _ _ (fun e he => (hpre e he).2.2)]
+    simp only [noneAfter, isReturned, Bool.false_eq_true, if_false]
+    rw [noneAfter_append_pre _ _ _ _ (fun e he => by rw [mem_auxEvs he]; rfl)]
+    simp only [noneAfter, isReturned, if_true]
+    simp only [Bool.not_eq_true', List.any_eq_false, List.mem_append]
+    intro e he
+    rcases he with he | he
+    · obtain ⟨n, b, rfl, _⟩ := mem_chunkEvs he; simp [isAux]
+    · rcases mem_finalEvs he with rfl | rfl <;> simp [isAux]
 
 
 /-! ### from `handle` to the answered shape -/
+
+theorem mem_hdrPairs {F : Facts13} {k : Nat} {v : HVal} {e : Ev} (h : e ∈ hdrPairs F k v) :
+    ∃ key b, e = .hdr key b := by
+  cases v with
+  | str => simp [hdrPairs] at h; exact ⟨_, _, h⟩
+  | list n => simp [hdrPairs] at h; exact ⟨_, _, h.2⟩
+  | tuple n =>
+    simp only [hdrPairs] at h
+    split at h
+    · simp at h; exact ⟨_, _, h.2⟩
+    · simp at h; exact ⟨_, _, h⟩
+
+theorem mem_hdrEvsFrom {F : Facts13} {hs : List HVal} {k : Nat} {e : Ev} (h : e ∈ hdrEvsFrom F k hs) :
+    ∃ key b, e = .hdr key b := by
+  induction hs generalizing k with
+  | nil => simp [hdrEvsFrom] at h
+  | cons v t ih =>
+    simp only [hdrEvsFrom, List.mem_append] at h
+    rcases h with h | h
+    · exact mem_hdrPairs h
+    · exact ih h
+
+theorem mem_hdrEvs {F : Facts13} {req : Req} {p : List Ev × Result} {e : Ev} (h : e ∈ hdrEvs F req p) :
+    ∃ key b, e = .hdr key b := by
+  unfold hdrEvs at h
+  split at h
+  · simp at h
+  · split at h
+    · exact mem_hdrEvsFrom h
+    · simp at h
+
+theorem bytesGot_hdrs (l : List Ev) (h : ∀ e ∈ l, ∃ key b, e = Ev.hdr key b) : bytesGot l = 0 := by
+  induction l with
+  | nil => rfl
+  | cons e t ih =>
+    obtain ⟨k, b, rfl⟩ := h e (by simp)
+    simpa [bytesGot] using ih (fun x hx => h x (by simp [hx]))
+
+theorem bytesGot_hdrEvs (F : Facts13) (req : Req) (p : List Ev × Result) : bytesGot (hdrEvs F req p) = 0 :=
+  bytesGot_hdrs _ (fun _ he => mem_hdrEvs he)
+
+theorem pre_of_hdrEvs (F : Facts13) (req : Req) (p : List Ev × Result) :
+    ∀ e ∈ hdrEvs F req p, isPre e = true := by
+  intro e he; obtain ⟨k, b, rfl⟩ := mem_hdrEvs he; rfl
 
 theorem pre_of_process (F : Facts13) (cfg : Cfg) (req : Req) (stream : List Nat) :
     ∀ e ∈ (process F cfg req stream).1, isPre e = true := by
@@ -619,16 +737,18 @@ theorem wsdlOut_cl (F : Facts13) (k : WsdlKind) (n : Nat) (h : (wsdlOut F k).cl 
 theorem handle_answered (F : Facts13) (cfg : Cfg) (req : Req) (stream : List Nat) (abort : Option Nat)
     (hF : F.Good) :
     ∃ pre o, Answered (handle F cfg req stream abort) abort pre o ∧
-      (req.wsdl = none → pre = (process F cfg req stream).1 ∧ (process F cfg req stream).2 = .out o ∧
+      (req.wsdl = none → pre = (process F cfg req stream).1 ++ hdrEvs F req (process F cfg req stream) ∧
+        (process F cfg req stream).2 = .out o ∧
         o.closes = .rpc ∧ ∀ c ∈ o.chunks, c.2 = true) ∧
       (∀ k, req.wsdl = some k → pre = [] ∧ o = wsdlOut F k) := by
   cases hw : req.wsdl with
   | some k =>
-    refine ⟨[], wsdlOut F k, ⟨?_, ?_, ?_, ?_⟩, ?_, ?_⟩
+    refine ⟨[], wsdlOut F k, ⟨?_, ?_, ?_, ?_, ?_⟩, ?_, ?_⟩
     · simp [handle, hw]
     · simp
     · rw [wsdlOut_timing]; exact hF.2.1
     · exact wsdlOut_cl F k
+    · cases k <;> rfl
     · intro h; cases h
     · intro k' h; cases h; exact ⟨rfl, rfl⟩
   | none =>
@@ -637,21 +757,64 @@ theorem handle_answered (F : Facts13) (cfg : Cfg) (req : Req) (stream : List Nat
     | crash c => rw [hr] at hwf; exact hwf.elim
     | out o =>
       rw [hr] at hwf
-      refine ⟨(process F cfg req stream).1, o, ⟨?_, pre_of_process _ _ _ _, hwf.1.timing, hwf.1.cl⟩, ?_, ?_⟩
+      refine ⟨(process F cfg req stream).1 ++ hdrEvs F req (process F cfg req stream), o,
+        ⟨?_, ?_, hwf.1.timing, hwf.1.cl, hwf.1.noEscape⟩, ?_, ?_⟩
       · simp [handle, hw, hr, finish]
+      · intro e he
+        rcases List.mem_append.1 he with he | he
+        · exact pre_of_process _ _ _ _ e he
+        · exact pre_of_hdrEvs _ _ _ e he
       · intro _; exact ⟨rfl, rfl, hwf.2, hwf.1.bytes⟩
       · intro k h; cases h
 
 /-! ### statements that need no fact at all -/
 
-theorem bytesGot_deliver (o : Out) (abort : Option Nat) : bytesGot (deliver o abort) = 0 := by
-  have h1 : ∀ cs, bytesGot (chunkEvs cs) = 0 := by
-    intro cs; induction cs with
-    | nil => rfl
-    | cons c t ih => simpa [chunkEvs, bytesGot] using ih
-  have h2 : ∀ c, bytesGot (finalEvs c) = 0 := by intro c; cases c <;> rfl
-  unfold deliver
-  split <;> simp [bytesGot, bytesGot_append, h1, h2]
+theorem mem_deliver {o : Out} {abort : Option Nat} {e : Ev} (h : e ∈ deliver o abort) :
+    (∃ s f c, e = .startResponse s f c) ∨ e = .aux ∨ e = .returned ∨ (∃ n b, e = .chunk n b) ∨
+    e = .ctxClosed ∨ e = .wsgiClose ∨ (∃ c, e = .crash c) := by
+  have hch : ∀ e ∈ chunkEvs (taken abort o.chunks), ∃ n b, e = Ev.chunk n b := by
+    intro e he; obtain ⟨n, b, rfl, _⟩ := mem_chunkEvs he; exact ⟨n, b, rfl⟩
+  unfold deliver at h
+  split at h
+  · simp only [List.mem_cons, List.mem_append, List.mem_singleton] at h
+    rcases h with rfl | h | h | h
+    · exact Or.inl ⟨_, _, _, rfl⟩
+    · exact Or.inr (Or.inl (mem_auxEvs h))
+    · exact Or.inr (Or.inr (Or.inr (Or.inr (Or.inr (Or.inr ⟨_, h⟩)))))
+    · cases h
+  · split at h <;> simp only [List.mem_cons, List.mem_append] at h
+    · rcases h with rfl | h | rfl | h | h
+      · exact Or.inl ⟨_, _, _, rfl⟩
+      · exact Or.inr (Or.inl (mem_auxEvs h))
+      · exact Or.inr (Or.inr (Or.inl rfl))
+      · exact Or.inr (Or.inr (Or.inr (Or.inl (hch e h))))
+      · rcases mem_finalEvs h with rfl | rfl
+        · exact Or.inr (Or.inr (Or.inr (Or.inr (Or.inl rfl))))
+        · exact Or.inr (Or.inr (Or.inr (Or.inr (Or.inr (Or.inl rfl)))))
+    · rcases h with rfl | h | h | rfl | h
+      · exact Or.inl ⟨_, _, _, rfl⟩
+      · exact Or.inr (Or.inl (mem_auxEvs h))
+      · rcases mem_finalEvs h with rfl | rfl
+        · exact Or.inr (Or.inr (Or.inr (Or.inr (Or.inl rfl))))
+        · exact Or.inr (Or.inr (Or.inr (Or.inr (Or.inr (Or.inl rfl)))))
+      · exact Or.inr (Or.inr (Or.inl rfl))
+      · exact Or.inr (Or.inr (Or.inr (Or.inl (hch e h))))
+
+theorem isRead_deliver (o : Out) (abort : Option Nat) :
+    ∀ e ∈ deliver o abort, isRead e = false ∧ isUser e = false ∧ isHdr e = false := by
+  intro e he
+  rcases mem_deliver he with ⟨_, _, _, rfl⟩ | rfl | rfl | ⟨_, _, rfl⟩ | rfl | rfl | ⟨_, rfl⟩ <;> exact ⟨rfl, rfl, rfl⟩
+
+theorem bytesGot_noread (l : List Ev) (h : ∀ e ∈ l, isRead e = false) : bytesGot l = 0 := by
+  induction l with
+  | nil => rfl
+  | cons e t ih =>
+    have he := h e (by simp)
+    have := ih (fun x hx => h x (by simp [hx]))
+    cases e <;> simp_all [bytesGot, isRead]
+
+theorem bytesGot_deliver (o : Out) (abort : Option Nat) : bytesGot (deliver o abort) = 0 :=
+  bytesGot_noread _ (fun e he => (isRead_deliver o abort e he).1)
 
 theorem bytesGot_finish (r : Result) (abort : Option Nat) : bytesGot (finish r abort) = 0 := by
   cases r with
@@ -661,15 +824,40 @@ theorem bytesGot_finish (r : Result) (abort : Option Nat) : bytesGot (finish r a
 theorem bytesGot_users (us : List Ev) (h : us = [] ∨ us = [.user]) : bytesGot us = 0 := by
   rcases h with rfl | rfl <;> rfl
 
+theorem isRead_finish (r : Result) (abort : Option Nat) : ∀ e ∈ finish r abort, isRead e = false ∧ isUser e = false := by
+  cases r with
+  | crash c => intro e he; simp [finish] at he; subst he; exact ⟨rfl, rfl⟩
+  | out o => exact fun e he => ⟨(isRead_deliver o abort e he).1, (isRead_deliver o abort e he).2.1⟩
+
+/-- an rpc request's trace: what `process` emits, the user-set headers, the answer -/
+theorem handle_rpc_eq (F : Facts13) (cfg : Cfg) (req : Req) (stream : List Nat) (abort : Option Nat)
+    (hw : req.wsdl = none) :
+    handle F cfg req stream abort =
+      (process F cfg req stream).1 ++
+        (hdrEvs F req (process F cfg req stream) ++ finish (process F cfg req stream).2 abort) := by
+  simp [handle, hw]
+
+/-- neither the header pairs nor the answer contain a `read` or the user function -/
+theorem tail_noread (F : Facts13) (req : Req) (p : List Ev × Result) (abort : Option Nat) :
+    ∀ e ∈ hdrEvs F req p ++ finish p.2 abort, isRead e = false ∧ isUser e = false := by
+  intro e he
+  rcases List.mem_append.1 he with he | he
+  · obtain ⟨k, b, rfl⟩ := mem_hdrEvs he; exact ⟨rfl, rfl⟩
+  · exact isRead_finish _ _ e he
+
+theorem bytesGot_tail (F : Facts13) (req : Req) (p : List Ev × Result) (abort : Option Nat) :
+    bytesGot (hdrEvs F req p ++ finish p.2 abort) = 0 :=
+  bytesGot_noread _ (fun e he => (tail_noread F req p abort e he).1)
+
 /-- the bytes a request obtains from `wsgi.input` are those of its body reader -/
 theorem bytesGot_handle (F : Facts13) (cfg : Cfg) (req : Req) (stream : List Nat) (abort : Option Nat) :
     bytesGot (handle F cfg req stream abort) = 0 ∨
     bytesGot (handle F cfg req stream abort) = bytesGot (readBody cfg req.contentLength stream).1 := by
-  unfold handle
-  split
-  · left; exact bytesGot_deliver _ _
-  · obtain ⟨us, heq, hus⟩ := process_pre F cfg req stream
-    simp only [bytesGot_append, bytesGot_finish, heq, bytesGot_users us hus]
+  cases hw : req.wsdl with
+  | some k => left; simp only [handle, hw]; exact bytesGot_deliver _ _
+  | none =>
+    obtain ⟨us, heq, hus⟩ := process_pre F cfg req stream
+    rw [handle_rpc_eq _ _ _ _ _ hw, bytesGot_append, bytesGot_tail, heq, bytesGot_append, bytesGot_users us hus]
     split
     · left; rfl
     · right; omega
@@ -679,34 +867,8 @@ theorem bytesGot_handle_reads (F : Facts13) (cfg : Cfg) (req : Req) (stream : Li
     (hw : req.wsdl = none) (hp : req.preReject = false) (hb : req.readsBody = true) :
     bytesGot (handle F cfg req stream abort) = bytesGot (readBody cfg req.contentLength stream).1 := by
   obtain ⟨us, heq, hus⟩ := process_pre F cfg req stream
-  simp only [handle, hw, bytesGot_append, bytesGot_finish, heq, bytesGot_users us hus, hp, hb]
-  simp
-
-theorem isRead_deliver (o : Out) (abort : Option Nat) : ∀ e ∈ deliver o abort, isRead e = false ∧ isUser e = false := by
-  intro e he
-  unfold deliver at he
-  have h1 : ∀ e ∈ chunkEvs (taken abort o.chunks), isRead e = false ∧ isUser e = false := by
-    intro e he; obtain ⟨n, b, rfl, _⟩ := mem_chunkEvs he; exact ⟨rfl, rfl⟩
-  have h2 : ∀ e ∈ finalEvs o.closes, isRead e = false ∧ isUser e = false := by
-    intro e he
-    cases hc : o.closes <;> simp [hc, finalEvs] at he <;> (try rcases he with rfl | rfl) <;> (try subst he) <;> exact ⟨rfl, rfl⟩
-  split at he <;> simp only [List.mem_cons, List.mem_append] at he
-  · rcases he with rfl | rfl | he | he
-    · exact ⟨rfl, rfl⟩
-    · exact ⟨rfl, rfl⟩
-    · exact h1 e he
-    · exact h2 e he
-  · rcases he with rfl | he | rfl | he
-    · exact ⟨rfl, rfl⟩
-    · exact h2 e he
-    · exact ⟨rfl, rfl⟩
-    · exact h1 e he
-
-theorem isRead_finish (r : Result) (abort : Option Nat) : ∀ e ∈ finish r abort, isRead e = false ∧ isUser e = false := by
-  cases r with
-  | crash c => intro e he; simp [finish] at he; subst he; exact ⟨rfl, rfl⟩
-  | out o => exact isRead_deliver o abort
-
+  rw [handle_rpc_eq _ _ _ _ _ hw, bytesGot_append, bytesGot_tail, heq, bytesGot_append, bytesGot_users us hus]
+  simp [hp, hb]
 
 /-! ### user code, the size limit -/
 
@@ -803,18 +965,19 @@ theorem noneAfter_of_none (p q : Ev → Bool) (l : List Ev) (h : ∀ e ∈ l, p 
 /-- every `read` precedes the user function and `start_response` -/
 theorem reads_first (F : Facts13) (cfg : Cfg) (req : Req) (stream : List Nat) (abort : Option Nat) :
     noneAfter isRead (fun e => isUser e || isStart e) (handle F cfg req stream abort) = true := by
-  unfold handle
-  split
-  · exact noneAfter_of_none _ _ _ (fun e he => (isRead_deliver _ _ e he).1)
-  · obtain ⟨us, heq, hus⟩ := process_pre F cfg req stream
-    show noneAfter _ _ ((process F cfg req stream).1 ++ finish (process F cfg req stream).2 abort) = true
-    rw [heq, List.append_assoc, noneAfter_append_pre]
+  cases hw : req.wsdl with
+  | some k =>
+    simp only [handle, hw]
+    exact noneAfter_of_none _ _ _ (fun e he => (isRead_deliver _ _ e he).1)
+  | none =>
+    obtain ⟨us, heq, hus⟩ := process_pre F cfg req stream
+    rw [handle_rpc_eq _ _ _ _ _ hw, heq, List.append_assoc, noneAfter_append_pre]
     · apply noneAfter_of_none
       intro e he
       simp only [List.mem_append] at he
       rcases he with he | he
       · rcases hus with rfl | rfl <;> simp at he; subst he; rfl
-      · exact (isRead_finish _ _ e he).1
+      · exact (tail_noread F req _ abort e (List.mem_append.2 he)).1
     · intro e he
       split at he
       · simp at he
@@ -828,12 +991,14 @@ theorem reads_le_stream (F : Facts13) (cfg : Cfg) (req : Req) (stream : List Nat
     List.countP isRead (handle F cfg req stream abort) ≤ stream.length + 1 := by
   have hz : ∀ l : List Ev, (∀ e ∈ l, isRead e = false) → List.countP isRead l = 0 := by
     intro l hl; rw [List.countP_eq_zero]; intro e he; simp [hl e he]
-  unfold handle
-  split
-  · rw [hz _ (fun e he => (isRead_deliver _ _ e he).1)]; omega
-  · obtain ⟨us, heq, hus⟩ := process_pre F cfg req stream
-    show List.countP isRead ((process F cfg req stream).1 ++ finish (process F cfg req stream).2 abort) ≤ _
-    rw [heq, List.countP_append, List.countP_append, hz _ (fun e he => (isRead_finish _ _ e he).1)]
+  cases hw : req.wsdl with
+  | some k =>
+    simp only [handle, hw]
+    rw [hz _ (fun e he => (isRead_deliver _ _ e he).1)]; omega
+  | none =>
+    obtain ⟨us, heq, hus⟩ := process_pre F cfg req stream
+    rw [handle_rpc_eq _ _ _ _ _ hw, List.countP_append, hz _ (fun e he => (tail_noread F req _ abort e he).1),
+      heq, List.countP_append]
     have h2 : List.countP isRead us = 0 := by rcases hus with rfl | rfl <;> rfl
     rw [h2]
     split
@@ -845,19 +1010,27 @@ theorem reads_le_stream (F : Facts13) (cfg : Cfg) (req : Req) (stream : List Nat
 /-- every `read` asks for at most a block and obtains at most what it asked for -/
 theorem reads_ok (F : Facts13) (cfg : Cfg) (req : Req) (stream : List Nat) (abort : Option Nat)
     (a g : Nat) (h : Ev.read a g ∈ handle F cfg req stream abort) : a ≤ cfg.blockLen ∧ g ≤ a := by
-  unfold handle at h
-  split at h
-  · exact absurd (isRead_deliver _ _ _ h).1 (by simp [isRead])
-  · obtain ⟨us, heq, hus⟩ := process_pre F cfg req stream
-    replace h : Ev.read a g ∈ (process F cfg req stream).1 ++ finish (process F cfg req stream).2 abort := h
-    rw [heq] at h
+  cases hw : req.wsdl with
+  | some k =>
+    simp only [handle, hw] at h
+    exact absurd (isRead_deliver _ _ _ h).1 (by simp [isRead])
+  | none =>
+    obtain ⟨us, heq, hus⟩ := process_pre F cfg req stream
+    rw [handle_rpc_eq _ _ _ _ _ hw, heq] at h
     simp only [List.mem_append] at h
     rcases h with (h | h) | h
     · split at h
       · simp at h
       · exact readBody_reads cfg req.contentLength stream _ h
     · rcases hus with rfl | rfl <;> simp at h
-    · exact absurd (isRead_finish _ _ _ h).1 (by simp [isRead])
+    · exact absurd (tail_noread F req _ abort _ (List.mem_append.2 h)).1 (by simp [isRead])
+
+/-- the auxiliary run leaves status and Content-Length of the answer alone -/
+theorem withAux_out {req : Req} {runs g : Bool} {r : Result} {o : Out} (h : withAux req runs g r = .out o) :
+    ∃ o', r = .out o' ∧ o.cl = o'.cl ∧ o.status = o'.status := by
+  cases r with
+  | crash c => cases h
+  | out o' => simp only [withAux, Result.out.injEq] at h; subst h; exact ⟨o', rfl, rfl, rfl⟩
 
 /-! ### Content-Length when not chunked -/
 
@@ -878,19 +1051,29 @@ theorem process_unchunked_cl (F : Facts13) (cfg : Cfg) (req : Req) (stream : Lis
     · simp only [h7, if_true] at h; exact hs0 _ _ h
   have he : ∀ p fc o, errorOut F req p fc = .out o → ∃ n, o.cl = some n := by
     intro p fc o h; simp [errorOut] at h; subst h; exact ⟨_, rfl⟩
+  have hea : ∀ runs g p fc o, withAux req runs g (errorOut F req p fc) = .out o → ∃ n, o.cl = some n := by
+    intro runs g p fc o h
+    obtain ⟨o', h1, h2, _⟩ := withAux_out h
+    obtain ⟨n, hn⟩ := he _ _ _ h1
+    exact ⟨n, by rw [h2, hn]⟩
+  have hsa : ∀ runs g r o, withAux req runs g (withReturnListener F cfg req r) = .out o → ∃ n, o.cl = some n := by
+    intro runs g r o h
+    obtain ⟨o', h1, h2, _⟩ := withAux_out h
+    obtain ⟨n, hn⟩ := hs _ _ h1
+    exact ⟨n, by rw [h2, hn]⟩
   have ha : ∀ r o, afterUser F cfg req r = .out o → ∃ n, o.cl = some n := by
     intro r o h
     unfold afterUser at h
     simp only [h5, if_true] at h
     split at h
     all_goals first
-      | (split at h <;> first | exact he _ _ _ h | exact hs _ _ h)
-      | exact he _ _ _ h
+      | (split at h <;> first | exact hea _ _ _ _ _ h | exact hsa _ _ _ _ h)
+      | exact hea _ _ _ _ _ h
   have hi : ∀ o, (intendedResult F cfg req).2 = .out o → ∃ n, o.cl = some n := by
     intro o h
     unfold intendedResult at h
     split at h
-    all_goals first | exact he _ _ _ h | exact ha _ _ h
+    all_goals first | exact he _ _ _ h | exact hea _ _ _ _ _ h | exact ha _ _ h
   unfold process at ho
   split at ho
   · exact he _ _ _ ho
@@ -933,6 +1116,16 @@ theorem process_status (F : Facts13) (cfg : Cfg) (req : Req) (stream : List Nat)
     · exact Or.inr (Or.inl ⟨fc, rfl⟩)
     · exact Or.inl ⟨fc, rfl⟩
   have hok : StatusSource F req F.okStatus := Or.inr (Or.inr (Or.inr (Or.inl rfl)))
+  have heP : ∀ (p : Option Nat) fc o, (∀ x, p = some x → x ∈ req.presets) → errorOut F req p fc = .out o →
+      StatusSource F req o.status := by
+    intro p fc o hpp h
+    simp only [errorOut, Result.out.injEq] at h; subst h
+    exact hp _ _ hpp (hfs fc)
+  have hAux : ∀ runs g r o, withAux req runs g r = .out o →
+      (∀ o', r = .out o' → StatusSource F req o'.status) → StatusSource F req o.status := by
+    intro runs g r o h hr
+    obtain ⟨o', h1, _, h3⟩ := withAux_out h
+    rw [h3]; exact hr o' h1
   have hi : ∀ o, (intendedResult F cfg req).2 = .out o → StatusSource F req o.status := by
     intro o h
     unfold intendedResult at h
@@ -941,8 +1134,7 @@ theorem process_status (F : Facts13) (cfg : Cfg) (req : Req) (stream : List Nat)
     · exact he _ _ h
     · exact he _ _ h
     · rename_i fc preset hint
-      simp [errorOut] at h; subst h
-      exact hp _ _ (by intro x hx; subst hx; simp [Req.presets, hint]) (hfs fc)
+      exact hAux _ _ _ _ h (fun o' h' => heP _ _ _ (by intro x hx; subst hx; simp [Req.presets, hint]) h')
     · rename_i r hint
       have hpr : ∀ x, r.preset = some x → x ∈ req.presets := by
         intro x hx; simp [Req.presets, hint, hx]
@@ -979,15 +1171,18 @@ theorem process_status (F : Facts13) (cfg : Cfg) (req : Req) (stream : List Nat)
               simp only [Result.out.injEq] at h; subst h
               exact hs0 r o' hpr ho'
       have hc : ∀ o, (if r.serializeFails then
-            errorOut F req (if F.lateErrorKeepsOkStatus then some (r.preset.getD F.okStatus) else r.preset) .server
-          else withReturnListener F cfg req r) = .out o → StatusSource F req o.status := by
+            withAux req req.auxOnErrors F.auxGuardError
+              (errorOut F req (if F.lateErrorKeepsOkStatus then some (r.preset.getD F.okStatus) else r.preset) .server)
+          else withAux req true F.auxGuardOk (withReturnListener F cfg req r)) = .out o →
+          StatusSource F req o.status := by
         intro o h
         split at h
-        · simp only [errorOut, Result.out.injEq] at h; subst h
+        · refine hAux _ _ _ _ h (fun o' h' => ?_)
+          simp only [errorOut, Result.out.injEq] at h'; subst h'
           cases hk : F.lateErrorKeepsOkStatus
           · simp only [Bool.false_eq_true, if_false]; exact hp _ _ hpr (hfs .server)
           · simp only [if_true, Option.getD_some]; exact hp _ _ hpr hok
-        · exact hs _ h
+        · exact hAux _ _ _ _ h (fun o' h' => hs _ h')
       unfold afterUser at h
       simp only at h
       split at h
@@ -997,9 +1192,7 @@ theorem process_status (F : Facts13) (cfg : Cfg) (req : Req) (stream : List Nat)
         · exact hc _ h
         · cases h
       · split at h
-        · rename_i fc _ _
-          simp [errorOut] at h; subst h
-          exact hp _ _ hpr (hfs fc)
+        · exact hAux _ _ _ _ h (fun o' h' => heP _ _ _ hpr h')
         · cases h
   unfold process at ho
   split at ho
@@ -1021,5 +1214,53 @@ theorem process_status (F : Facts13) (cfg : Cfg) (req : Req) (stream : List Nat)
         · split at ho
           · exact he _ _ ho
           · exact hi _ ho
+
+/-! ### the headers given to `start_response` -/
+
+theorem hdrPairs_str (F : Facts13) (hF : F.headerTuplesExpanded = true) (k0 : Nat) (v : HVal) (k : Nat) (b : Bool)
+    (h : Ev.hdr k b ∈ hdrPairs F k0 v) : b = true := by
+  cases v with
+  | str => simp [hdrPairs] at h; exact h.2
+  | list n => simp [hdrPairs] at h; exact h.2.2
+  | tuple n => simp [hdrPairs, hF] at h; exact h.2.2
+
+theorem hdrEvsFrom_str (F : Facts13) (hF : F.headerTuplesExpanded = true) (hs : List HVal) (k0 k : Nat) (b : Bool)
+    (h : Ev.hdr k b ∈ hdrEvsFrom F k0 hs) : b = true := by
+  induction hs generalizing k0 with
+  | nil => simp [hdrEvsFrom] at h
+  | cons v t ih =>
+    simp only [hdrEvsFrom, List.mem_append] at h
+    rcases h with h | h
+    · exact hdrPairs_str F hF _ _ _ _ h
+    · exact ih _ h
+
+/-- every header pair that stems from a user-set header carries a native string -/
+theorem hdr_str (F : Facts13) (hF : F.headerTuplesExpanded = true) (cfg : Cfg) (req : Req) (stream : List Nat)
+    (abort : Option Nat) (k : Nat) (b : Bool) (h : Ev.hdr k b ∈ handle F cfg req stream abort) : b = true := by
+  cases hw : req.wsdl with
+  | some kd =>
+    simp only [handle, hw] at h
+    exact absurd (isRead_deliver _ _ _ h).2.2 (by simp [isHdr])
+  | none =>
+    rw [handle_rpc_eq _ _ _ _ _ hw] at h
+    simp only [List.mem_append] at h
+    rcases h with h | h | h
+    · obtain ⟨us, heq, hus⟩ := process_pre F cfg req stream
+      rw [heq] at h
+      simp only [List.mem_append] at h
+      rcases h with h | h
+      · split at h
+        · simp at h
+        · exact (readBody_reads cfg req.contentLength stream _ h).elim
+      · rcases hus with rfl | rfl <;> simp at h
+    · unfold hdrEvs at h
+      split at h
+      · simp at h
+      · split at h
+        · exact hdrEvsFrom_str F hF _ _ _ _ h
+        · simp at h
+    · cases hr : (process F cfg req stream).2 with
+      | crash c => rw [hr] at h; simp [finish] at h
+      | out o => rw [hr] at h; exact absurd (isRead_deliver _ _ _ h).2.2 (by simp [isHdr])
 
 end SpyneModel.Wsgi
